@@ -432,6 +432,16 @@ func vndIntrinsic(in *Interp, st *State, fn *ssa.Function, args []Value, retTo s
 			in.markShared(st, i.V, name, 0)
 		}
 		return nil, true
+	case "And":
+		return tf.LAnd(in.termOf(args[0], "And"), in.termOf(args[1], "And")), true
+	case "Or":
+		return tf.LOr(in.termOf(args[0], "Or"), in.termOf(args[1], "Or")), true
+	case "Implies":
+		return tf.LOr(tf.LNot(in.termOf(args[0], "Implies")), in.termOf(args[1], "Implies")), true
+	case "Ite64", "Ite8", "IteInt":
+		return tf.Ite(in.termOf(args[0], "Ite"), in.termOf(args[1], "Ite"), in.termOf(args[2], "Ite")), true
+	case "RefTZ64":
+		return in.refTZ64(in.termOf(args[0], "RefTZ64")), true
 	case "U128From":
 		s := args[0].(Slice)
 		if s.Len < 16 {
@@ -551,6 +561,7 @@ func init() {
 		"sync/atomic.AddUint64":    atomicAdd,
 		"sync/atomic.AddInt64":     atomicAdd,
 		"strconv.Itoa":             strconvItoa,
+		"math/bits.TrailingZeros64": tz64Summary,
 		"strconv.FormatInt":        nil,
 	}
 	for k, v := range intrinsicTable {
@@ -943,4 +954,30 @@ func strconvItoa(in *Interp, st *State, fn *ssa.Function, args []Value, retTo ss
 		return in.strConst(st, strconv.FormatInt(signed(t.W, t.C).Int64(), 10)), true
 	}
 	return nil, false
+}
+
+// refTZ64 is the bit-scan definition of TrailingZeros64 as an ite chain. It is
+// used as a validated summary of math/bits.TrailingZeros64 (whose de Bruijn
+// multiply-and-lookup body is expensive for the solver); the obligation harness
+// VerifH_sum_tz64 executes the real body (option "real-tz64") and proves it
+// equal to this term for every 64-bit input.
+func (in *Interp) refTZ64(x *Term) *Term {
+	tf := in.tf
+	res := tf.ConstI(64, 64)
+	for i := 63; i >= 0; i-- {
+		res = tf.Ite(tf.Cmp("=", tf.Extract(i, i, x), tf.ConstU(1, 1)), tf.ConstI(64, int64(i)), res)
+	}
+	return res
+}
+
+func tz64Summary(in *Interp, st *State, fn *ssa.Function, args []Value, retTo ssa.Value, pos token.Pos) (Value, bool) {
+	if in.opts["real-tz64"] {
+		return nil, false
+	}
+	x := in.termOf(args[0], "TrailingZeros64")
+	if x.IsConst() {
+		return nil, false
+	}
+	in.eng.noteSummary("math/bits.TrailingZeros64")
+	return in.refTZ64(x), true
 }
